@@ -3,8 +3,10 @@
    patch applies, builds, full suite passes, demo fails with it and passes without it."""
 import json,os,subprocess,sys,re
 ID,N=sys.argv[1],sys.argv[2]
-src=sys.argv[4] if len(sys.argv)>4 and sys.argv[3]=='--src' else f"/tmp/seed-out/{ID}/{N}"
-W=f"/tmp/seed-{ID}"
+R=os.environ.get("ROUND","1")
+OUT="/tmp/seed-out" if R=="1" else f"/tmp/seed-out{R}"
+src=sys.argv[4] if len(sys.argv)>4 and sys.argv[3]=='--src' else f"{OUT}/{ID}/{N}"
+W=f"/tmp/seed-{ID}" if R=="1" else f"/tmp/seed{R}-{ID}"
 env=dict(os.environ,GOFLAGS="-mod=mod",GOPROXY="off",GOSUMDB="off",GOTOOLCHAIN="local")
 def sh(cmd,cwd=W,timeout=1800):
     p=subprocess.run(cmd,shell=True,cwd=cwd,env=env,stdout=subprocess.PIPE,stderr=subprocess.STDOUT,text=True,timeout=timeout)
@@ -12,7 +14,7 @@ def sh(cmd,cwd=W,timeout=1800):
 def clean():
     sh("git checkout -q -- . && git clean -fdq")
 meta=json.load(open(f"{src}/meta.json"))
-demo=meta["demo_cmd"].replace(f"/tmp/seed-out/{ID}/{N}",src)
+demo=meta["demo_cmd"].replace(f"{OUT}/{ID}/{N}",src)
 def demo_failed():
     rc,out=sh(demo)
     failed = rc!=0 or re.search(r'^(--- FAIL|FAIL|panic:)',out,re.M) is not None
